@@ -196,12 +196,14 @@ def h_reject(n: int, k: int, j: int, probe: int, atom=(2,), bad='atom', viaiter=
              _gate=None, _small=False):
     """an incompatible chunk (wrong trailing shape / rank) as first element: raises, nothing
     changes (chunks before a failing one are C09's subject)."""
-    assume(0 <= n <= BIG and 1 <= k <= BIG)
+    assume(0 <= n <= BIG and 0 <= k <= BIG)        # k = 0: data without elements but of incompatible shape
     small(_small, n, k)
     w = new_world()
     a = open_rw(w, n, 'int32', 'little', atom)
     before = snap(w.lookup('/w/a/arrayvalues.bin'))
-    if bad == 'atom':
+    if bad == 'rank+0':
+        batom = atom + (0,)          # one axis too many, of extent 0: no bytes at all, still incompatible
+    elif bad == 'atom':
         batom = (3,) if atom == (2,) else (2,)
     elif bad == 'rank+':
         batom = atom + (2,)
@@ -473,7 +475,7 @@ def _replay(darr, np_, ob, fx, tmp):
     elif ob == 'S-reject':
         bad = fx['bad']
         batom = ((3,) if atom == (2,) else (2,)) if bad == 'atom' else (
-            atom + (2,) if bad == 'rank+' else atom[:-1])
+            atom + (2,) if bad == 'rank+' else atom + (0,) if bad == 'rank+0' else atom[:-1])
         x = rp.values(np_, int(fx['k']), batom, 'int32', 'little', 50)
         try:
             if fx.get('viaiter'):
@@ -585,7 +587,8 @@ def obligations(tier):
                   replay='replay_generic', sym='n, probe', bounds='1<=n<=2^62; index in {1.0, "1", None}'))
     obs.append(Ob('S-reject', 'h_reject',
                   splits=[dict(atom=at, bad=b, viaiter=v) for at in [(2,), (2, 3)]
-                          for b in ('atom', 'rank+', 'rank-') for v in (False, True)],
+                          for b in ('atom', 'rank+', 'rank+0', 'rank-') for v in (False, True)]
+                  + [dict(atom=(), bad='rank+0', viaiter=v) for v in (False, True)],
                   timeout=T, replay='replay_generic', sym='n, k, probe',
                   bounds='0<=n<=2^62, 1<=k<=2^62; wrong trailing extent, one extra axis, one axis fewer'))
     obs.append(Ob('S-assign', 'h_assign', splits=[dict(atom=at) for at in [(), (2,)]],
